@@ -4,6 +4,7 @@ import SpoxModel.Lemmas.Float
 import SpoxModel.Model.Embed
 import SpoxModel.Model.AttrSite
 import SpoxModel.Model.AttrRef
+import SpoxModel.Model.VarFields
 import SpoxModel.Generated.AttrSites
 /-!
 # C10 — constants and attributes are embedded exactly and captured at the call
@@ -827,6 +828,15 @@ theorem every_constructor_attr_captured (s : Shape) (hs : s ∈ Generated.AttrSi
   simp only [Entry.ok, Bool.and_eq_true] at hok
   exact captured e.observed a (by rw [hk]; exact hok.1) hp ms
 
+/-- **Every variadic input of every shipped constructor** (each parameter typed `Sequence[Var]` in the 8 modules,
+    regenerated every run): it is handed to the `Inputs` dataclass as the bare parameter, hence stored by
+    `BaseVars.__post_init__`, whose capture row passes - so the caller's list of Vars is captured at the call
+    (`captured_at_call`) for concat / max / min / mean / sum / einsum / sequence_construct / loop / scan / sequence_map /
+    feature_vectorizer alike. -/
+theorem generated_variadics_ok :
+    (∀ v ∈ Generated.AttrSites.variadics, v.2 = true) ∧ Generated.AttrSites.variadics.length ≥ 10 ∧
+    Generated.CaptureTable.table.any (fun e => e.site == "BaseVars.variadic" && e.ok && e.kind == .flat) = true := by decide
+
 /-- Non-vacuity: a generator of three items through a single pass, through a pre-pass, and a list through a pre-pass. -/
 example : stored [.full] (⟨[3, 1, 2], true⟩ : Src Nat) = [3, 1, 2] := rfl
 example : stored [.full, .full] (⟨[3, 1, 2], true⟩ : Src Nat) = [] := rfl
@@ -919,5 +929,102 @@ theorem generated_aliases_ok :
     (∀ r ∈ aliases, r.2.2 = enumOf r.2.1) ∧ aliases.length ≥ 30 := by decide
 
 end Reverse
+
+/-! ## Part 9 (round 8): input fields (`BaseVars.__post_init__`, `_flatten`) - the variadic clause of the statement -/
+section Fields
+open VarFields AttrSite
+
+/-- **A variadic input is captured at the call, from any iterable.** If the field is accepted, what is stored is exactly
+    the items the caller's iterable had at the call - a list, a tuple, or a one-shot generator alike - and all are Vars. -/
+theorem variadic_exact (s : Src Item) (st : VarFields.Stored) (h : store .variadic (.iter s) = .ok st) :
+    st = .many s.items ∧ s.items.all Item.isVar = true := by
+  have h' : (if s.items.all Item.isVar = true then (Except.ok (VarFields.Stored.many s.items) : Except Attr.Err VarFields.Stored)
+      else .error .typeError) = .ok st := h
+  by_cases hall : s.items.all Item.isVar = true
+  · rw [if_pos hall] at h'
+    injection h' with h'
+    exact ⟨h'.symm, hall⟩
+  · rw [if_neg hall] at h'
+    cases h'
+
+/-- A variadic input with an item that is not a Var - or that is no iterable at all - leaves the call with TypeError,
+    for a one-shot iterable too (the frozen tuple is checked, not the exhausted iterable). -/
+theorem variadic_wrong_kind_typeerror (s : Src Item) (h : s.items.all Item.isVar = false) :
+    store .variadic (.iter s) = .error .typeError := by
+  show (if s.items.all Item.isVar = true then (Except.ok (VarFields.Stored.many s.items) : Except Attr.Err VarFields.Stored)
+      else .error .typeError) = _
+  rw [h]; rfl
+
+theorem variadic_not_iterable_typeerror (i : Item) : store .variadic (.obj i) = .error .typeError := rfl
+
+/-- Single and optional fields: accepted iff a Var (or None for optional); everything else is TypeError. -/
+theorem single_spec (g : Given) :
+    store .single g = (match g with | .obj (.var n) => .ok (.one (.var n)) | _ => .error .typeError) := by
+  cases g with
+  | obj i => cases i <;> rfl
+  | iter s => rfl
+
+theorem optional_spec (g : Given) :
+    store .optional g = (match g with
+      | .obj (.var n) => .ok (.one (.var n)) | .obj .none_ => .ok (.one .none_) | _ => .error .typeError) := by
+  cases g with
+  | obj i => cases i <;> rfl
+  | iter s => rfl
+
+/-- No field kind can fail with anything but TypeError. -/
+theorem store_error_is_typeerror (k : VarFields.Kind) (g : Given) (e : Attr.Err) (h : store k g = .error e) : e = .typeError := by
+  cases k <;> cases g with
+  | obj i => cases i <;> simp_all [store]
+  | iter s =>
+    simp only [store] at h
+    first
+      | (injection h with h; exact h.symm)
+      | (split at h
+         · simp at h
+         · injection h with h; exact h.symm)
+
+/-- What is stored for a variadic field is a function of the items the iterable had AT THE CALL only: not of whether
+    it can be iterated again, hence not of anything the caller does to its list afterwards. -/
+theorem variadic_depends_on_call_items (s1 s2 : Src Item) (h : s1.items = s2.items) :
+    store .variadic (.iter s1) = store .variadic (.iter s2) := by
+  show (if s1.items.all Item.isVar = true then (Except.ok (VarFields.Stored.many s1.items) : Except Attr.Err VarFields.Stored)
+      else .error .typeError) = (if s2.items.all Item.isVar = true then .ok (.many s2.items) else .error .typeError)
+  rw [h]
+
+/-- A whole Inputs dataclass fails with TypeError or not at all. -/
+theorem storeAll_error_is_typeerror (fs : List (String × VarFields.Kind × Given)) (e : Attr.Err)
+    (h : storeAll fs = .error e) : e = .typeError := by
+  induction fs with
+  | nil => simp [storeAll] at h
+  | cons f rest ih =>
+    obtain ⟨n, k, g⟩ := f
+    simp only [storeAll] at h
+    split at h
+    · rename_i e' he
+      injection h with h; subst h
+      exact store_error_is_typeerror k g _ he
+    · split at h
+      · rename_i e' he
+        injection h with h; subst h
+        exact ih he
+      · simp at h
+
+/-- The node's inputs of a variadic field are `key_0 … key_{n-1}` in the order of the iterable at the call. -/
+theorem flatten_variadic (key : String) (l : List Item) (rest : List (String × VarFields.Stored)) :
+    flatten ((key, .many l) :: rest) = enumFrom key 0 l ++ flatten rest := rfl
+
+theorem enumFrom_length (key : String) (i : Nat) (l : List Item) : (enumFrom key i l).length = l.length := by
+  induction l generalizing i with
+  | nil => rfl
+  | cons x xs ih => simp [enumFrom, ih]
+
+/-- Non-vacuity: a generator of two Vars, a generator with an int, a list after which the caller appends (the stored
+    value is a function of the items at the call only). -/
+example : (store .variadic (.iter ⟨[.var 3, .var 1], true⟩)).toOption = some (.many [.var 3, .var 1]) := by decide
+example : (store .variadic (.iter ⟨[.var 3, .other], true⟩)).toOption = none := by decide
+example : getVars [("A", .one (.var 7)), ("B", .one .none_), ("C", .many [.var 3, .var 1])] =
+    [("A", 7), ("C_0", 3), ("C_1", 1)] := by decide
+
+end Fields
 
 end C10
